@@ -11,7 +11,7 @@ from .. import hirlib as H
 
 TRAITS = {"gamedig::protocols::types::CommonResponse": "resp", "gamedig::protocols::types::CommonPlayer": "player"}
 SYNONYMS = {
-    "players_maximum": {"players_maximum", "player_limit", "max_players"},
+    "players_maximum": {"players_maximum", "player_limit", "max_players", "players_maxmimum"},   # sic: epic::Response spells its field this way
     "players_online": {"players_online", "num_players", "players"},   # mindustry ServerData.players is the online count
     "game_mode": {"game_mode", "gamemode", "game_type"},
     "game_version": {"game_version", "version_name"},
